@@ -282,7 +282,8 @@ def getM (data : List Row) : MIx → Val
 inductive Data where
   | scalar (x : Rat)
   | vec (xs : List Rat)
-  | mat
+  /-- 2-d data (`ndim ≥ 2`) -/
+  | mat (rows : List (List Rat))
   deriving Repr, DecidableEq, Inhabited
 
 def setAt (row : Row) (i : Nat) (x : Rat) : Row := row.set i x
@@ -299,7 +300,7 @@ def writeAll (row : Row) (is : List Nat) (x : Rat) : Row :=
 def resetRow (row : Row) : Data → Except Err Row
   | .scalar x => .ok (row.map fun _ => x)
   | .vec xs => .ok ((List.range row.length).map fun i => xs.getD i 0)
-  | .mat => .error .indexError
+  | .mat _ => .error .indexError
 
 /-- `parent.group_compositions[name]`. -/
 def compOf (c : Chem) (name : Option String) : Except Err (List Rat) :=
@@ -353,7 +354,7 @@ def writeZero (row : Row) : List Ent → Row
 def setIx (c : Chem) (row : Row) (ix : Ix) (k : HKey) (d : Data) : Except Err Row :=
   match ix, d with
   | .all, d => resetRow row d
-  | _, .mat => .error .indexError
+  | _, .mat _ => .error .indexError
   | .one i, .scalar x => .ok (setAt row i x)
   | .one _, .vec _ => .error .indexError
   | .grp is, .scalar x => do
@@ -397,7 +398,7 @@ row before it looks at the shape of the data; a nested key with too few data has
 prefix; every other failure happens before any write. -/
 def setIxFail (c : Chem) (row : Row) (ix : Ix) (k : HKey) (d : Data) : Row :=
   match ix, d with
-  | .all, .mat => row.map fun _ => 0
+  | .all, .mat _ => row.map fun _ => 0
   | .nested es, .vec xs => nestedPrefix c k xs row 0 es
   | .nested es, .scalar x => if x = 0 then row else nestedScalarPrefix c k x row 0 es
   | _, _ => row
@@ -440,6 +441,24 @@ def writeNestedAllPhases (c : Chem) (k : HKey) (xs : List Rat) :
       if comp.length ≠ is.length then .error .valueError else
       writeNestedAllPhases c k xs (data.map fun r => writeZip r is (comp.map (x * ·))) (n + 1) t
 
+/-- `self.data[:, index] = rows` with one data row per phase, each as long as the index. -/
+def writeRowsZip (is : List Nat) : List Row → List (List Rat) → Except Err (List Row)
+  | [], [] => .ok []
+  | r :: t, xs :: xss =>
+    if xs.length ≠ is.length then .error .valueError else
+    match writeRowsZip is t xss with
+    | .ok t' => .ok (writeZip r is xs :: t')
+    | .error e => .error e
+  | _, _ => .error .valueError
+
+def scaleRows (comp : List Rat) : List (List Rat) → Except Err (List (List Rat))
+  | [] => .ok []
+  | xs :: t =>
+    match mulZip xs comp, scaleRows comp t with
+    | .ok v, .ok t' => .ok (v :: t')
+    | .error e, _ => .error e
+    | _, .error e => .error e
+
 /-- `MaterialIndexer.__setitem__` after key resolution; `k` is the `IDs` part of the key.
 (For the all-phases forms only scalars and 1-d data of the matching length are in the
 modelled domain; other shapes answer `valueError`.) -/
@@ -451,7 +470,9 @@ def setM (c : Chem) (data : List Row) (mix : MIx) (k : HKey) (d : Data) : Except
     | .scalar x => .ok (data.map fun r => r.map fun _ => x)
     | .vec xs => if data.all (fun r => r.length = xs.length) then .ok (data.map fun _ => xs)
                  else .error .valueError
-    | .mat => .error .valueError
+    | .mat rows =>
+      if rows.length = data.length ∧ data.all (fun r => rows.all fun xs => xs.length = r.length) then .ok rows
+      else .error .valueError
   | .row p =>
     match data[p]? with
     | none => .error .indexError
@@ -466,7 +487,13 @@ def setM (c : Chem) (data : List Row) (mix : MIx) (k : HKey) (d : Data) : Except
       pure (setRowAt data p r')
   | .sub none ix =>
     match ix, d with
-    | _, .mat => .error .valueError
+    | .arr is, .mat rows => writeRowsZip is data rows
+    | .one i, .mat rows => writeRowsZip [i] data rows
+    | .grp is, .mat rows => do
+      let comp ← compOf c (keyName k)
+      let scaled ← scaleRows comp rows
+      writeRowsZip is data scaled
+    | _, .mat _ => .error .valueError
     | .all, _ => .error .typeError
     | .one i, .scalar x => .ok (data.map fun r => setAt r i x)
     | .one i, .vec xs => writeColumn i data xs
@@ -505,7 +532,7 @@ def nestedAllPrefix (c : Chem) (k : HKey) (xs : List Rat) : List Row → Nat →
 /-- State of the data after a *failed* `setM` (see `setIxFail`). -/
 def setMFail (c : Chem) (data : List Row) (mix : MIx) (k : HKey) (d : Data) : List Row :=
   match mix, d with
-  | .row p, .mat => setRowAt data p ((data.getD p []).map fun _ => 0)
+  | .row p, .mat _ => setRowAt data p ((data.getD p []).map fun _ => 0)
   | .sub (some p) ix, d => setRowAt data p (setIxFail c (data.getD p []) ix k d)
   | .sub none (.nested es), .vec xs => nestedAllPrefix c k xs data 0 es
   | _, _ => data
@@ -544,23 +571,23 @@ def splitNestedVec (xs : List Rat) : Row → Nat → List Ent → Row × Bool
 (the row then shows what had been written before). -/
 def setSplit (row : Row) (ix : Ix) (d : Data) : Row × Option Err :=
   match ix, d with
-  | .all, .mat => (row.map fun _ => 0, some .indexError)
+  | .all, .mat _ => (row.map fun _ => 0, some .indexError)
   | .all, .scalar x => (row.map fun _ => x, none)
   | .all, .vec xs => ((List.range row.length).map fun i => xs.getD i 0, none)
   | .one i, .scalar x => (setAt row i x, none)
   | .one _, _ => (row, some .indexError)
   | .grp is, .scalar x => (writeAll row is x, none)
   | .grp is, .vec xs => (writeZip row is xs, none)
-  | .grp _, .mat => (row, some .indexError)
+  | .grp _, .mat _ => (row, some .indexError)
   | .nested es, .scalar x => (splitNestedScalar row x es, none)
   | .nested es, .vec xs =>
     match splitNestedVec xs row 0 es with
     | (r, true) => (r, none)
     | (r, false) => (r, some .indexError)
-  | .nested _, .mat => (row, some .typeError)
+  | .nested _, .mat _ => (row, some .typeError)
   | .arr is, .scalar x => (writeAll row is x, none)
   | .arr is, .vec xs => (writeZip row is xs, none)
-  | .arr _, .mat => (row, some .indexError)
+  | .arr _, .mat _ => (row, some .indexError)
 
 /-! ### Name-keyed construction of arrays, and views in other units -/
 
@@ -572,7 +599,7 @@ def fancyAssign (row : Row) (is : List Nat) : Data → Except Err Row
   | .scalar x => .ok (writeAll row is x)
   | .vec [x] => .ok (writeAll row is x)
   | .vec xs => if xs.length = is.length then .ok (writeZip row is xs) else .error .valueError
-  | .mat => .error .valueError
+  | .mat _ => .error .valueError
 
 /-- `chemicals.array(IDs, data)` / `kwarray` after resolution of `tuple(IDs)`. -/
 def arrayOf (size : Nat) (ix : Ix) (d : Data) : Except Err Row :=
